@@ -1057,7 +1057,7 @@ std::string plan_to_text(const Plan &p) {
             const Fault &f = op.f;
             if (f.any())
                 o << "fault " << f.alloc_k << " " << f.alloc_mode << " " << f.alloc_k2 << " " << f.wr_fail_at << " " << f.wr_errno << " "
-                  << f.wr_chunk << " " << f.rd_chunk << " " << f.rd_err_at << " " << f.rd_errno << " " << f.bufmode << "\n";
+                  << f.wr_chunk << " " << f.rd_chunk << " " << f.rd_err_at << " " << f.rd_errno << " " << f.bufmode << " " << (unsigned long long)f.alloc_mask << "\n";
         }
     }
     return o.str();
@@ -1114,6 +1114,8 @@ bool parse_replay(const std::string &text, std::map<std::string, std::string> &m
         } else if (kw == "fault" && op) {
             Fault &f = op->f;
             ls >> f.alloc_k >> f.alloc_mode >> f.alloc_k2 >> f.wr_fail_at >> f.wr_errno >> f.wr_chunk >> f.rd_chunk >> f.rd_err_at >> f.rd_errno >> f.bufmode;
+            unsigned long long mk = 0;
+            if (ls >> mk) f.alloc_mask = mk;
         } else if (kw == "start") ls >> s.start;
         else if (kw == "sw") {
             Switch w;
